@@ -291,3 +291,27 @@ func (b *goBuilder) expr(v *Val) string {
 	}
 	return "nil"
 }
+
+// hasMultiMap: does the value contain a map with more than one entry (iteration order is not determined)?
+func (v *Val) hasMultiMap() bool {
+	if v == nil {
+		return false
+	}
+	if v.K == "map" && len(v.KVs) > 1 {
+		return true
+	}
+	if v.V.hasMultiMap() {
+		return true
+	}
+	for _, x := range v.Vs {
+		if x.hasMultiMap() {
+			return true
+		}
+	}
+	for _, kv := range v.KVs {
+		if kv[0].hasMultiMap() || kv[1].hasMultiMap() {
+			return true
+		}
+	}
+	return false
+}
